@@ -8,6 +8,7 @@ pub mod exec;
 pub mod gen;
 pub mod json;
 pub mod model;
+pub mod multirun;
 pub mod oracles;
 pub mod replay;
 pub mod runner;
